@@ -30,7 +30,7 @@ CLAIMS = {
          "6.C14", "POST over sentinel-initialised singleton + static frame scan + bounded history replay"),
  "C15": ("proof", "argv = objdump -d -M att [-j s]* file for a symbolic section list (loop summarised by T1), stdout returned unchanged on exit status 0, every failure raises; both routes build the same parser/producer classes; process_file hands exactly the disassembly text to the parser. objdump itself is external (assumed).",
          "6.C15", "symbolic execution with subprocess/Path replaced by stubs that enumerate every outcome"),
- "C17": ("other", "Exceptional postconditions on the real functions for each wrongly-shaped input (symbolic integers for the bounds, enumerated YAML shapes), static scan that no handler swallows an exception, and every fault of the statement injected into a valid pair through the real entry point in a subprocess (fault enumeration, one representative pair per fault: bounded).",
+ "C17": ("other", "Exceptional postconditions on the real functions for each wrongly-shaped input (symbolic integers for the bounds, enumerated YAML shapes), static scan that no handler swallows an exception, and every fault of the statement injected into a valid pair through the real entry point in a subprocess (fault enumeration, one representative pair per fault: bounded). One listed known finding: an undefined @name in a rule without any macro definition is not reported (pinned by the repository's own test).",
          "6.C17", "EXC obligations by symbolic execution + handler scan + fault injection through MasterOfPuppets"),
  "C18": ("proof", "ValidAddrObserver.observe_instruction over symbolic hexadecimal bounds and targets (value = uninterpreted hexval, 0x stripping executed by the real HexType): tagged iff direct branch mnemonic, hexadecimal target, min <= target <= max; call/jmp must be tagged when in range; everything else returned unchanged; observer installed iff the rule configures a range (reset otherwise).",
          "6.C18", "z3 integer VCs on path conditions of the real observer"),
